@@ -16,11 +16,11 @@ return the flow from *before* the loop, and no loop has a back edge, so assignme
 invisible after the loop / in later iterations. The existing test-suite pins this behaviour
 (`test_dynamic_while_post_flow_ignores_body_assignment_for_print_arg`, …), so it is kept as an open known finding.
 
-Proved: `C41_partial` — the statement for every program whose loop bodies contain no assignment (conditions, nested
-`if`s, probes, conditional breaks and nested loops are unrestricted; assignments outside loops are unrestricted):
-the narrowing applied by `while` conditions inside bodies, by `until` conditions and `break` edges on the exit
-path, and by everything after the loop, never excludes the runtime value. What is missing for the full
-statement is exactly the defect: a sound treatment of variables a loop body assigns.
+Proved: `C41_partial` — the statement for every program and every variable that no loop body assigns (loop bodies
+may assign *other* variables freely; conditions, nested `if`s, probes, conditional breaks, nested loops and
+assignments outside loops are unrestricted): the narrowing applied by `while` conditions inside bodies, by `until`
+conditions and `break` edges on the exit path, and by everything after the loop, never excludes the runtime value.
+What is missing for the full statement is exactly the defect: a sound treatment of the variables a loop body assigns.
 -/
 namespace C41
 open Flow
@@ -46,10 +46,10 @@ theorem declTyL_ne_unknown (p : LProg) (x : Nat) : p.declTy x ≠ .unknown := by
   · rename_i l _
     split <;> cases l <;> simp [Lit.ty, widen]
 
-theorem initPtL_sound (p : LProg) : SoundPt p.initEnv p.initPt := by
+theorem initPtL_sound (W : Nat → Bool) (p : LProg) : SoundPt W p.initEnv p.initPt := by
   unfold LProg.initPt
   apply soundSt_mk (by simp [LProg.initEnv])
-  intro x _ m
+  intro x _ _ m
   cases m <;> simpa [Res3.get, Res.has, has_single] using widenL_declTy_has p x
 
 theorem initPtL_wf (p : LProg) : WfPt p.initPt := by
@@ -59,34 +59,50 @@ theorem initPtL_wf (p : LProg) : WfPt p.initPt := by
   simp only [NoUnkRes, Res.intoType, List.mem_cons, List.not_mem_nil, or_false]
   exact fun h => declTyL_ne_unknown p x h.symm
 
-/-- **C41_partial.** For every `FL` program whose loop bodies assign nothing, and every terminating run: if the run
-reaches probe `id` with `x = v`, the type inferred for `x` at that probe — inside a loop body, on a loop's exit path
-or anywhere after the loop — contains `v`. -/
-theorem C41_partial (p : LProg) (hin : p.body.inert = true) (fuel : Nat) (obs : List Obs)
-    (h : p.run fuel = some obs) (id x : Nat) (v : Val) (hv : (id, x, v) ∈ obs) :
+/-- decidable side condition for stored-type guards (see `C15.storedSafe`) -/
+def storedSafe (p : LProg) (S : List (Nat × TName)) : Bool :=
+  p.body.ok S && S.all fun q => (p.initEnv.get q.1).typeName == q.2
+
+/-- **C41_partial.** Let `W` be any set of variables containing every variable that some loop body assigns
+(`loopOK`; assignments outside loops are unrestricted, loop bodies may assign the variables of `W` freely).
+For every `FL` program, every fuel and every terminating run: if the run reaches probe `id` with `x = v` and
+`x ∉ W`, the type inferred for `x` at that probe — inside a loop body, on a loop's exit path or anywhere after
+the loop — contains `v`. (Per-variable statement: the variables a loop assigns are exactly where the open findings
+live; for all other variables narrowing inside and after loops is sound.) -/
+theorem C41_partial (p : LProg) (W : Nat → Bool) (S : List (Nat × TName)) (hW : p.body.loopOK W = true)
+    (hS : storedSafe p S = true) (fuel : Nat) (obs : List Obs) (h : p.run fuel = some obs)
+    (id x : Nat) (v : Val) (hv : (id, x, v) ∈ obs) (hx : W x = false) :
     ∃ t, (id, x, t) ∈ p.typeAt ∧ t.has v = true := by
+  simp only [storedSafe, Bool.and_eq_true, List.all_eq_true, beq_iff_eq] at hS
   unfold LProg.run at h
   cases hr : LBlock.exec fuel p.initEnv p.body with
   | none => simp [hr] at h
   | some r =>
     simp only [hr, Option.map_some, Option.some.injEq] at h
     subst h
-    have hs := (LBlock.sound p.decls.length p.declTy fuel p.body p.initPt p.initEnv r hin
-      (by simp [LProg.initEnv]) (initPtL_wf p) (initPtL_sound p) hr).2.2
-    exact hs (id, x, v) hv
+    have hs := (LBlock.sound (W := W) (S := S) p.decls.length p.declTy fuel p.body p.initPt p.initEnv r hW hS.1
+      (by simp [LProg.initEnv]) (fun q hq => hS.2 q hq) (initPtL_wf p) (initPtL_sound W p) hr).obs
+    exact hs (id, x, v) hv hx
 
-/-- A loop whose body assigns nothing leaves every variable as it was (so "the pre-loop type whenever the body may
-run zero times" and "every type the body can assign" coincide on this fragment). -/
-theorem inert_loop_env (fuel : Nat) (ρ : Env) (s : LStmt) (r : Out) (hn : s.noAssign = true)
-    (h : LStmt.exec fuel ρ s = some r) : r.env = ρ :=
-  LStmt.exec_env fuel ρ s r hn h
+/-- `C41_partial` for programs whose loop bodies assign nothing: every probe of every variable is covered. -/
+theorem C41_partial_inert (p : LProg) (S : List (Nat × TName)) (hin : p.body.loopOK (fun _ => false) = true)
+    (hS : storedSafe p S = true) (fuel : Nat) (obs : List Obs) (h : p.run fuel = some obs)
+    (id x : Nat) (v : Val) (hv : (id, x, v) ∈ obs) :
+    ∃ t, (id, x, t) ∈ p.typeAt ∧ t.has v = true :=
+  C41_partial p (fun _ => false) S hin hS fuel obs h id x v hv rfl
+
+/-- A loop that assigns only variables of `W` leaves every other variable as it was (so for them "the pre-loop type
+whenever the body may run zero times" and "every type the body can assign" coincide). -/
+theorem loop_agree (W : Nat → Bool) (fuel : Nat) (ρ : Env) (s : LStmt) (r : Out) (hn : s.assignsIn W = true)
+    (h : LStmt.exec fuel ρ s = some r) (x : Nat) (hx : W x = false) : r.env.get x = ρ.get x :=
+  (LStmt.exec_agree fuel ρ s r hn h).1 x hx
 
 /-! ### witnesses: the current code violates the full statement -/
 
 /-- `local v0 = nil; while not v0 do v0 = "s1" end; p(0, v0)` -/
 def wWhile : LProg :=
   ⟨[some .nil],
-   .cons (.whileDo (.not (.truthy 0)) (.cons (.assign 0 (.str 1)) .nil))
+   .cons (.whileDo (.not (.leaf (.truthy 0))) (.cons (.assign 0 (.str 1)) .nil))
    (.cons (.probe 0 0) .nil)⟩
 
 /-- **C41_witness.** After `while not k do k = 'x' end` the run reaches the probe with a string, the inferred type
@@ -128,13 +144,26 @@ theorem C41_witness_backedge :
 repeat p(2, v1) until v0 == nil; p(3, v0)` -/
 def exInert : LProg :=
   ⟨[some .nil, some (.str 1)],
-   .cons (.whileDo (.truthy 0) (.cons (.probe 0 1) (.cons (.breakIf (.truthy 1)) .nil)))
+   .cons (.whileDo (.leaf (.truthy 0)) (.cons (.probe 0 1) (.cons (.breakIf (.leaf (.truthy 1))) .nil)))
    (.cons (.probe 1 0)
-   (.cons (.repeatUntil (.cons (.probe 2 1) .nil) (.isNil 0 false))
+   (.cons (.repeatUntil (.cons (.probe 2 1) .nil) (.leaf (.isNil 0 false)))
    (.cons (.probe 3 0) .nil)))⟩
 
-example : exInert.body.inert = true := by decide
+example : exInert.body.loopOK (fun _ => false) = true := by decide
 example : exInert.run 20 = some [(1, 0, .nil), (2, 1, .str 1), (3, 0, .nil)] := by decide
 example : exInert.typeAt = [(0, 1, [.strC 1]), (1, 0, [.nil]), (2, 1, [.strC 1]), (3, 0, [.nil])] := by decide
+
+/-- `local v0 = nil; local v1 = "s1"; while not v0 do v0 = 1; if type(v1) == "string" then p(0, v1) end end; p(1, v1)`:
+the loop assigns `v0` (in `W`), the theorem covers the probes of `v1` -/
+def exMixed : LProg :=
+  ⟨[some .nil, some (.str 1)],
+   .cons (.whileDo (.not (.leaf (.truthy 0)))
+      (.cons (.assign 0 (.int 1))
+      (.cons (.ite (.leaf (.typeIs 1 .string false)) (.cons (.probe 0 1) .nil) .none) .nil)))
+   (.cons (.probe 1 1) .nil)⟩
+
+example : exMixed.body.loopOK (fun x => x == 0) = true := by decide
+example : storedSafe exMixed [] = true := by decide
+example : exMixed.run 20 = some [(0, 1, .str 1), (1, 1, .str 1)] := by decide
 
 end C41
